@@ -37,6 +37,7 @@ type Probe struct {
 	Host string
 	URL  string
 	At   time.Time
+	DoneAt time.Time // fake time at which the transport returned
 	arr  int
 	ch   chan probeVerdict
 	Done bool
@@ -89,9 +90,11 @@ func (n *ProbeNet) RoundTrip(req *http.Request) (*http.Response, error) {
 		}
 		n.mu.Unlock()
 		p.Done = true
+		p.DoneAt = time.Now()
 		return nil, req.Context().Err()
 	}
 	p.Done = true
+	p.DoneAt = time.Now()
 	hdr := http.Header{"Content-Type": []string{"text/plain; version=0.0.4"}}
 	mk := func(code int, body io.ReadCloser) *http.Response {
 		return &http.Response{StatusCode: code, Status: fmt.Sprintf("%d %s", code, http.StatusText(code)), Header: hdr, Body: body, Request: req, Proto: "HTTP/1.1", ProtoMajor: 1, ProtoMinor: 1, ContentLength: -1}
